@@ -352,10 +352,12 @@ def stubs():
 def server_close(ctx, ex, prog, viol):
     n = 0
     # the last configuration has a reply that channel A's caller has not picked up yet (its call is in flight): the close notice must still fit
-    for shape, nc, pf in [('None', 0, 0), ('None', 2, 0), ('Body:Delivery', 1, 0), ('None', 1, 1)] + ctx.q([], [('Start:Get', 1, 0), ('Body:Return', 2, 1)]):
-        def pre(fs, a, b):
-            return [fs.is_method('Connection', 'Close'), fs.chan('Method') == 0]
-        fs, a, b, infoA, res = explore_step(ctx, ex, prog, shapeA=shape, consumersA=nc, pre=pre, prefillA=pf)
+    # ... and in the very last one the client's own Connection.Close is already queued (writes sealed) when the server's arrives: the
+    # closes cross; nothing may be written after the client's Close, the server's close is still what everybody is told
+    for shape, nc, pf, crossing in [('None', 0, 0, False), ('None', 2, 0, False), ('Body:Delivery', 1, 0, False), ('None', 1, 1, False), ('None', 1, 0, True)] + ctx.q([], [('Start:Get', 1, 0, False), ('Body:Return', 2, 1, True)]):
+        def pre(fs, a, b, crossing=crossing):
+            return [fs.is_method('Connection', 'Close'), fs.chan('Method') == 0] + ([sym('sealed0', z3.BoolSort())] if crossing else [])
+        fs, a, b, infoA, res = explore_step(ctx, ex, prog, shapeA=shape, consumersA=nc, pre=pre, prefillA=pf, sealed=(sym('sealed0', z3.BoolSort()) if crossing else False))
         cf = prog.types.fields('amq_protocol::protocol::connection::Close')
         code = fs.method_field('Connection', 'Close', cf.index('reply_code'), BV16)
         text = fs.method_field('Connection', 'Close', cf.index('reply_text'), StrSort)
@@ -367,7 +369,7 @@ def server_close(ctx, ex, prog, viol):
             else:
                 items = new_items(w)
                 okf = len(items) == 1 and items[0]['kind'] == 'method' and method_of(prog, items[0])[:2] == ('Connection', 'CloseOk')
-                conds.append(z3.BoolVal(bool(okf)))
+                conds.append(z3.BoolVal(len(items) == 0 if crossing else bool(okf)))
                 if okf:
                     conds.append(items[0]['chan'].bv == 0)
                     # queued after everything that was already in the buffer
@@ -400,14 +402,14 @@ def server_close(ctx, ex, prog, viol):
                             conds.append(z3.And(ef2['code'].bv == code, ef2['message'].s == text))
                 # channel-0 endpoints are dropped with the Steady state
                 conds.append(z3.BoolVal(w.slots['ch0']['reply'].senders == 0))
-            m = ctx.decide(f"c08.server-close[{shape},{nc}]#{n}", s.pc, z3.And(*conds),
+            m = ctx.decide(f"c08.server-close[{shape},{nc}{',crossing' if crossing else ''}]#{n}", s.pc, z3.And(*conds),
                            group='server Connection.Close: CloseOk queued last, buffer sealed, every channel and consumer told ServerClosedConnection(code,text), slots drained',
                            sample={'collector': shape, 'consumers': nc})
             if m is not None:
-                def oracle(obs):
+                def oracle(obs, crossing=crossing):
                     from ioreplay import parse_obs, obs_list
                     d = parse_obs(obs)
-                    ok = d.get('state') == 'ServerClosing' and d.get('sealed') == 'true' and d.get('earlier') == 'kept' and re.match(r'^\[M0:Connection\.CloseOk\]$', d.get('out', '')) is not None
+                    ok = d.get('state') == 'ServerClosing' and d.get('sealed') == 'true' and d.get('earlier') == 'kept' and re.match(r'^\[\]$' if crossing else r'^\[M0:Connection\.CloseOk\]$', d.get('out', '')) is not None
                     for nm_, f_ in d['slots'].items():
                         if nm_ == 'ch0':
                             continue
